@@ -28,8 +28,9 @@ for p in $pids; do wait $p || fail=1; done
 if [ $fail = 1 ]; then cat build/obj/*.log >&2; exit 2; fi
 LK=$( (echo "$objs $LIBC $LIBX") | sha256sum | cut -c1-12)
 if [ ! -f "build/bin/pbt-$LK" ]; then
-  rm -f build/bin/pbt-*
+  find build/bin -name "pbt-*" -mmin +30 -delete 2>/dev/null || true
   clang++ -fsanitize=address,undefined -o "build/bin/pbt-$LK" $objs "$LIBC/yaepc.o" "$LIBX/yaepxx.o" -lrapidcheck 2>build/obj/link.log || { cat build/obj/link.log >&2; exit 2; }
 fi
-ln -sf "pbt-$LK" build/bin/pbt
-echo "$ROOT/build/bin/pbt"
+NAME=${PBT_NAME:-pbt}
+ln -sf "pbt-$LK" build/bin/$NAME
+echo "$ROOT/build/bin/$NAME"
